@@ -10,11 +10,11 @@
 package mcpx
 
 import (
-	"sync"
-	"errors"
 	"context"
+	"errors"
 	"fmt"
 	"strings"
+	"sync"
 	"testing"
 	"time"
 
@@ -29,8 +29,8 @@ type c13Spec struct {
 	Side       string   `json:"side"` // client | server
 	IntervalMs int      `json:"interval_ms"`
 	Threshold  int      `json:"threshold"`
-	Pattern    []string `json:"pattern"`  // per ping: A | L (answered late, < interval/2) | S | N | R
-	CloseAfter int      `json:"close_after"` // the harness closes the session after this many intervals (if still open)
+	Pattern    []string `json:"pattern"`             // per ping: A | L (answered late, < interval/2) | S | N | R
+	CloseAfter int      `json:"close_after"`         // the harness closes the session after this many intervals (if still open)
 	CloseErr   bool     `json:"close_err,omitempty"` // the transport's Close reports an error although it closes
 }
 
@@ -72,7 +72,7 @@ func TestVerifC13(t *testing.T) {
 		Rule: "each case: a client or server session with KeepAlive in {10 ms, 1 s, 1 h} and failure threshold in {0,1,2,3,5} over a scripted peer; ping outcomes follow a pattern of length 1..12 over {answered, answered late (< interval/2), silence, silence with the follow-up cancellation notice rejected, write blocked until the ping's deadline, method-not-found, write rejected}, answered afterwards; the transport's Close optionally reports an error; the harness closes the session a few intervals later. " +
 			"Thorough tier: all patterns over {A,S,N,R} up to length 6 x 4 thresholds. non-trivial: >=1 failed ping and (>=1 answered ping after a failure, or the session was closed by keep-alive). distinct = distinct (side, interval, threshold, pattern)",
 		MinNontrivial: 100,
-		Assumptions: []string{"the peer keeps draining its input; a missed ping is one that was received and not answered", "a ping whose write is rejected by the transport fails at once"},
+		Assumptions:   []string{"the peer keeps draining its input; a missed ping is one that was received and not answered", "a ping whose write is rejected by the transport fails at once"},
 	}
 	vh.Run(t, cfg, func(c *vh.Case) {
 		spec := genC13(c.R, c.Index)
